@@ -7,8 +7,8 @@ import (
 	"go.nanomsg.org/mangos/v3/internal/core"
 )
 
-func PipeIDsInUse() []uint32        { return core.VerifPipeIDsInUse() }
-func ResetPipeIDs(next uint32)      { core.VerifResetPipeIDs(next) }
+func PipeIDsInUse() []uint32          { return core.VerifPipeIDsInUse() }
+func ResetPipeIDs(next uint32)        { core.VerifResetPipeIDs(next) }
 func SocketPipes(s mangos.Socket) int { return core.VerifSocketPipes(s) }
 
 // SocketClosed reports whether Close has been called on the socket.
